@@ -28,10 +28,10 @@ Proof. exact commit_stable. Qed.
 Theorem C01_commit_certified : forall powers lru (correct : list (N * N)) acts,
   NoDup (map fst correct) -> run_ok powers lru (init_net correct) acts ->
   forall i b s, In (i, (b, s)) (commits (run powers lru (init_net correct) acts)) ->
-  exists root round signers,
+  exists root round proposer signers,
     maj23 (mkConf i powers lru) <= set_power (mkConf i powers lru) signers /\
     forall k, In k signers -> existsb (N.eqb k) (map fst correct) = true ->
-      In (mkHV k (mkView root round Phase_PRECOMMIT_VOTE) b s) (n_votes (run powers lru (init_net correct) acts)).
+      In (mkHV k (mkView root round Phase_PRECOMMIT_VOTE) b s proposer) (n_votes (run powers lru (init_net correct) acts)).
 Proof. exact commit_certified. Qed.
 Print Assumptions C01_commit_certified.
 
